@@ -16,7 +16,7 @@
    exception objects have identity (`eid`), "unchanged" means the same object.              *)
 From Coq Require Import List Arith Bool Lia.
 From PV Require Import Base.Exn Model.Generator Model.Contextlib Model.SafeCtx Model.CtxEval Spec.CtxSpec
-  Gen.CtxShape Proofs.CtxCore Proofs.CtxNest Proofs.CtxEdge.
+  Gen.CtxShape Proofs.CtxCore Proofs.CtxNest Proofs.CtxEdge Proofs.CtxCount.
 Import ListNotations.
 
 Definition prog (var : variant) : block := d_prog (deco_for var).
@@ -167,6 +167,30 @@ Theorem C16_repeated_use_independent : forall var items w,
 Proof. exact repeated_spec. Qed.
 Print Assumptions C16_repeated_use_independent.
 
+(* "exactly once", counted: in nested use the code after the yield of generator `id` runs as often as
+   a generator with that id gets as far as its yield (reached_count, Spec/CtxSpec.v) - whatever the
+   body and the other generators do ... *)
+Theorem C16_nested_each_cleanup_counted : forall var us tag o x0 w id,
+  let r := with_nest var (prog var) us (simple_body tag o) x0 w in
+  cleanups_of id (journal (snd r)) = cleanups_of id (journal w) + reached_count us id.
+Proof. exact nested_count. Qed.
+Print Assumptions C16_nested_each_cleanup_counted.
+
+(* ... which for generators with distinct ids is at most once, and exactly once when every setup succeeds *)
+Theorem C16_nested_each_cleanup_exactly_once : forall var us tag o x0 u,
+  NoDup (map u_id us) -> In u us ->
+  let n := cleanups_of (u_id u) (journal (snd (with_nest var (prog var) us (simple_body tag o) x0 w0))) in
+  n <= 1 /\ (forallb setup_ok us = true -> n = 1).
+Proof. exact nested_once. Qed.
+Print Assumptions C16_nested_each_cleanup_exactly_once.
+
+(* the same over repeated use (statement after statement on the same decorated function) *)
+Theorem C16_repeated_each_cleanup_counted : forall var items w id,
+  let r := with_seq var (prog var) items w in
+  cleanups_of id (journal (snd r)) = cleanups_of id (journal w) + reached_count_seq items id.
+Proof. exact repeated_count. Qed.
+Print Assumptions C16_repeated_each_cleanup_counted.
+
 (* ---- edge cases, stated exactly ------------------------------------------------------------ *)
 
 (* a body that raises StopIteration / StopAsyncIteration / GeneratorExit: inside the wrapper the
@@ -262,3 +286,9 @@ Example C16_example_run :
   journal (snd r) = [EvGen 1 0 (Some 7); EvGen 2 0 (Some 8); EvBody 1 10; EvGen 2 1 (Some 8); EvGen 1 1 (Some 7)] /\
   classify (fst r) = LGenWrapped 1 1 /\ converts Sync StopIterationC = true /\ quiet u2 = true /\ in_domain_use u1 = true.
 Proof. vm_compute. repeat split; reflexivity. Qed.
+
+Example C16_example_count :
+  let us := [mkUse 1 7 SetupOk 9 (CleanRaise KeyboardInterruptC); mkUse 2 8 SetupOk 10 CleanOk; mkUse 3 8 (SetupRaise ValueErrorC) 0 CleanOk] in
+  NoDup (map u_id us) /\ reached_count us 1 = 1 /\ reached_count us 2 = 1 /\ reached_count us 3 = 0 /\
+  forallb setup_ok [mkUse 1 7 SetupOk 9 (CleanRaise KeyboardInterruptC); mkUse 2 8 SetupOk 10 CleanOk] = true.
+Proof. cbv zeta. repeat split; try reflexivity. repeat constructor; cbn; intuition discriminate. Qed.
